@@ -9,8 +9,9 @@ TRUSTED = ['the WEAKENED handler contract: an initial transition may name any st
            'the chart is finite (some bound DMAX on depth exists)', 'tree lemmas (discharged obligations)']
 ASSUMPTIONS = ['exactly the malformations of the property are admitted; other violations of the handler contract are not',
                'no state of the active configuration gives no status (None) to the super search: pre-condition of '
-               'dispatch[weak] and trans_[weak]; start_at/dispatch refuse to enter such a state (proved), the quantified '
-               're-establishment over all ancestors is exercised natively only']
+               'dispatch[weak] and trans_[weak].  Every ENTRY call made by start_at / dispatch carries the obligation '
+               '"the entered state answers the super search" (proved); that the active configuration consists of top and '
+               'of states that were entered and not exited is the (unmechanised) induction over the history']
 EXPLANATION = ('start_at/init and dispatch are verified a second time under the weakened contract, with their own loop '
                'invariants: (1) termination -- every loop has a variant, the outer init loops use DMAX - depth; (2) the '
                'monitor obligations still hold at every entry/exit/init call, i.e. no wrong state is entered before the '
